@@ -18,9 +18,19 @@ def footer(size: int, data_offset: int, disk_type: int, uid: bytes, legacy: bool
     return body[:511] if legacy else body
 
 
-def build_fixed(rng, *, nsectors: int, legacy: bool = False, tag: int = 1, kind: int = 0):
+def build_fixed(rng, *, nsectors: int, legacy: bool = False, tag: int = 1, kind: int = 0, nested: str | None = None):
+    """nested: guest content that itself starts like a VHD ('dynamic' footer copy / 'fixed' footer) at LBA 0."""
     size = nsectors * SECTOR
     layer = Layer(size, max(nsectors, 1), tag, kind, default=D)
+    if nested and nsectors:
+        inner_uid = bytes(rng.randrange(256) for _ in range(16))
+        if nested == "dynamic":
+            layer.override[0] = footer(size // 2, 512, 3, inner_uid)
+            if nsectors > 3:
+                dh = struct.pack(">8sQQIIII", b"cxsparse", 0xFFFFFFFFFFFFFFFF, 1536, 0x00010000, 4, 2 << 20, 0).ljust(1024, b"\0")
+                layer.override[1], layer.override[2] = dh[:512], dh[512:]
+        else:
+            layer.override[0] = footer(size // 2, 0xFFFFFFFFFFFFFFFF, 2, inner_uid)
     uid = bytes(rng.randrange(256) for _ in range(16))
     sf = SparseFile()
     if nsectors:
